@@ -16,16 +16,35 @@ package obiformats
 //             included) must be unchanged and the second text identical to the first.
 //
 // log.Fatal is turned into a panic by ExitFunc and recovered: a fatal is one recorded outcome.
+//
+// Added by the audit (enumerations in zz_verif_c02f_test.go, command level in
+// harness/pkg__obitools__obiconvert/zz_verif_c02_test.go):
+//
+//   - c02case.Other: the OPPOSITE quality-shift option differs from the one an operation must use
+//     (writing: output=Shift,input=Other; reading: input=Shift,output=Other), and the written quality
+//     bytes are checked to be min(q,93)+output shift;
+//   - Level "file": WriteFasta / WriteFastq / WriteSequence -> ReadFasta / ReadFastq /
+//     ReadSequencesFromFile (format guessed) / ReadFastSeqFromFile (kseq, the reader behind the standard
+//     input of every command) with the header format / parser taken from the options or their defaults,
+//     1-4 workers, several batch partitions; keys of that path start with file: / file(kseq):
+//   - value kinds []float64, []string, map[string]float64, map[string]bool, []interface{}, nil; number
+//     sweep (every power of two, integer-valued floats, floats >= 2^63, encoder format switches), every
+//     value tree of depth <= 2, map/list chains, identifiers over the string alphabet, keys with blanks;
+//   - E3: title lines made of JSON tokens (other number spellings, null, lists, escapes, text around the
+//     object, OBI-style key=value; for the guessed parser).
 
 import (
 	"bytes"
 	"encoding/json"
 	"fmt"
 	"io"
+	"os"
 	"reflect"
+	"runtime/debug"
 	"sort"
 	"strings"
 	"testing"
+	"time"
 
 	"git.metabarcoding.org/obitools/obitools4/obitools4/pkg/obiiter"
 	"git.metabarcoding.org/obitools/obitools4/obitools4/pkg/obioptions"
@@ -38,7 +57,7 @@ import (
 
 // c02val is one annotation value, typed as the toolkit would hold it in memory.
 type c02val struct {
-	T  string            `json:"t"` // str int float bool mapint mapstr ints nested
+	T  string            `json:"t"` // str int float bool mapint mapstr ints nested | floats strs mapfloat mapbool list null
 	S  string            `json:"s,omitempty"`
 	I  int64             `json:"i,omitempty"`
 	F  float64           `json:"f,omitempty"`
@@ -48,6 +67,13 @@ type c02val struct {
 	MS map[string]string `json:"ms,omitempty"`
 	IS []int             `json:"is,omitempty"`
 	N  []c02kv           `json:"n,omitempty"`
+	// kinds added by the audit (values the commands really hold: []float64, []string, map[string]float64,
+	// map[string]bool, []interface{} of anything, nil)
+	FS []float64          `json:"fs,omitempty"`
+	SS []string           `json:"ss,omitempty"`
+	MF map[string]float64 `json:"mf,omitempty"`
+	MB map[string]bool    `json:"mb,omitempty"`
+	L  []c02val           `json:"l,omitempty"`
 }
 
 type c02kv struct {
@@ -67,9 +93,21 @@ type c02case struct {
 	Kind   string   `json:"kind"`   // "rt" | "title"
 	Fmt    string   `json:"fmt"`    // "fasta" | "fastq"
 	Parser string   `json:"parser"` // "json" | "guessed"
-	Shift  int      `json:"shift"`  // output == input quality shift
+	Shift  int      `json:"shift"`  // quality shift of the written text = shift the reader is told to use
 	Recs   []c02rec `json:"recs,omitempty"`
 	Title  string   `json:"title,omitempty"`
+	// Other: value of the OPPOSITE global quality-shift option while an operation runs (0: same as Shift).
+	// Writing runs with output=Shift,input=Other; reading with input=Shift,output=Other: code that looks
+	// at the wrong one of the two options is then visible.
+	Other int `json:"other,omitempty"`
+	// File-level path (Level == "file"): WriteFasta/WriteFastq/WriteSequence -> sink -> ReadFasta/ReadFastq/
+	// ReadSequencesFromFile + the header parser chosen through the reader options.
+	Level   string `json:"level,omitempty"`   // "" chunk-level API | "file"
+	Writer  string `json:"writer,omitempty"`  // fasta | fastq | auto (WriteSequence: FASTQ iff the first record has qualities)
+	Reader  string `json:"reader,omitempty"`  // fasta | fastq (ReadFasta / ReadFastq on a stream) | auto (ReadSequencesFromFile: format guessed)
+	Workers int    `json:"workers,omitempty"` // parallel workers of writer and reader
+	Batch   int    `json:"batch,omitempty"`   // records per batch handed to the writer (0: one batch)
+	HdrOpt  string `json:"hdropt,omitempty"`  // "" header format/parser given explicitly through the options | "default": left to MakeOptions
 }
 
 // ---------------------------------------------------------------- fatal interception
@@ -82,7 +120,7 @@ type c02hook struct{}
 
 func (c02hook) Levels() []log.Level { return []log.Level{log.FatalLevel, log.PanicLevel} }
 func (c02hook) Fire(e *log.Entry) error {
-	c02lastFatal = e.Message
+	c02setLastFatal(e.Message)
 	return nil
 }
 
@@ -92,7 +130,9 @@ func c02try(f func()) (fatal bool, msg string) {
 		if p := recover(); p != nil {
 			fatal = true
 			if _, ok := p.(c02exit); ok {
-				msg = "fatal: " + c02lastFatal
+				msg = "fatal: " + c02getLastFatal()
+			} else if pp, ok := p.(c02pipeProblem); ok {
+				msg = pp.msg // a fatal raised in (or a hang of) a goroutine of a file-level pipeline
 			} else {
 				msg = fmt.Sprintf("panic: %v", p)
 			}
@@ -107,6 +147,12 @@ func c02fatalClass(msg string) string {
 	switch {
 	case strings.HasPrefix(msg, "panic:"):
 		return "panic"
+	case strings.HasPrefix(msg, "hang:"):
+		return "hang"
+	case strings.Contains(msg, "not starting with @") || strings.Contains(msg, "does not start with '>'") || strings.Contains(msg, "first character is not"):
+		return "fatal-record-start"
+	case strings.Contains(msg, "guessed format"):
+		return "fatal-format-not-guessed"
 	case strings.Contains(msg, "annotation parsing error"):
 		return "fatal-annotation-parsing-error"
 	case strings.Contains(msg, "quality lenght not equal"):
@@ -163,6 +209,30 @@ func (v c02val) goValue() interface{} {
 			m[kv.K] = kv.V.goValue()
 		}
 		return m
+	case "floats":
+		return append([]float64{}, v.FS...)
+	case "strs":
+		return append([]string{}, v.SS...)
+	case "mapfloat":
+		m := make(map[string]float64, len(v.MF))
+		for k, x := range v.MF {
+			m[k] = x
+		}
+		return m
+	case "mapbool":
+		m := make(map[string]bool, len(v.MB))
+		for k, x := range v.MB {
+			m[k] = x
+		}
+		return m
+	case "list":
+		l := make([]interface{}, len(v.L))
+		for i, e := range v.L {
+			l[i] = e.goValue()
+		}
+		return l
+	case "null":
+		return nil
 	}
 	panic("c02: unknown value type " + v.T)
 }
@@ -206,6 +276,38 @@ func (v c02val) model() interface{} {
 			m[kv.K] = kv.V.model()
 		}
 		return m
+	case "floats":
+		l := make([]interface{}, len(v.FS))
+		for i, x := range v.FS {
+			l[i] = x
+		}
+		return l
+	case "strs":
+		l := make([]interface{}, len(v.SS))
+		for i, x := range v.SS {
+			l[i] = x
+		}
+		return l
+	case "mapfloat":
+		m := map[string]interface{}{}
+		for k, x := range v.MF {
+			m[k] = x
+		}
+		return m
+	case "mapbool":
+		m := map[string]interface{}{}
+		for k, x := range v.MB {
+			m[k] = x
+		}
+		return m
+	case "list":
+		l := make([]interface{}, len(v.L))
+		for i, e := range v.L {
+			l[i] = e.model()
+		}
+		return l
+	case "null":
+		return nil
 	}
 	panic("c02: unknown value type " + v.T)
 }
@@ -226,6 +328,20 @@ func (v c02val) strings(out *[]string) {
 		for _, kv := range v.N {
 			*out = append(*out, kv.K)
 			kv.V.strings(out)
+		}
+	case "strs":
+		*out = append(*out, v.SS...)
+	case "mapfloat":
+		for k := range v.MF {
+			*out = append(*out, k)
+		}
+	case "mapbool":
+		for k := range v.MB {
+			*out = append(*out, k)
+		}
+	case "list":
+		for _, e := range v.L {
+			e.strings(out)
 		}
 	}
 }
@@ -425,6 +541,10 @@ func c02strclass(ss []string) string {
 // ---------------------------------------------------------------- pipeline pieces
 
 func c02format(c c02case, seqs obiseq.BioSequenceSlice) []byte {
+	c02setShifts(c.Shift, c.Other, true)
+	if c.Level == "file" {
+		return c02fileWrite(c, seqs)
+	}
 	if len(seqs) == 1 {
 		if c.Fmt == "fasta" {
 			return []byte(FormatFasta(seqs[0], FormatFastSeqJsonHeader))
@@ -439,6 +559,10 @@ func c02format(c c02case, seqs obiseq.BioSequenceSlice) []byte {
 }
 
 func c02parse(c c02case, text []byte) obiseq.BioSequenceSlice {
+	c02setShifts(c.Shift, c.Other, false)
+	if c.Level == "file" {
+		return c02fileRead(c, text)
+	}
 	var seqs obiseq.BioSequenceSlice
 	var err error
 	if c.Fmt == "fasta" {
@@ -464,6 +588,20 @@ func c02setShift(shift int) {
 	obioptions.SetInputQualityShift(shift)
 }
 
+// c02setShifts: the option the running operation must use gets shift, the opposite one gets other.
+func c02setShifts(shift, other int, writing bool) {
+	if other == 0 {
+		other = shift
+	}
+	if writing {
+		obioptions.SetOutputQualityShift(shift)
+		obioptions.SetInputQualityShift(other)
+	} else {
+		obioptions.SetInputQualityShift(shift)
+		obioptions.SetOutputQualityShift(other)
+	}
+}
+
 type c02result struct {
 	key, desc string // violation (key == "" : none)
 	state     string // canonical outcome
@@ -481,7 +619,27 @@ func c02clip(b []byte) string {
 // ---------------------------------------------------------------- E1: record round trip
 
 func c02checkRT(c c02case) (res c02result) {
-	c02setShift(c.Shift)
+	res = c02checkRT0(c)
+	if res.key != "" && c.Level == "file" {
+		// a defect of the file-level path never hides behind a chunk-level key, one of the reader behind the
+		// standard input (kseq, C code) never behind a key of the Go readers
+		pre := "file:"
+		if c.Reader == "kseq" {
+			pre = "file(kseq):"
+			if c.Fmt == "fastq" && c02hasHighQualityByte(c) {
+				// what makes it fail is known (kseq.h keeps quality bytes 33..127 only): ONE key for every
+				// symptom (records lost, fatal, qualities of the next record ...), the symptom is in desc
+				res.desc = "[" + res.key + "] " + res.desc
+				res.key = pre + "quality-byte>127"
+				return
+			}
+		}
+		res.key = pre + res.key
+	}
+	return
+}
+
+func c02checkRT0(c c02case) (res c02result) {
 	var strs []string
 	seqs := make(obiseq.BioSequenceSlice, 0, len(c.Recs))
 	exps := make([]c02expect, 0, len(c.Recs))
@@ -497,6 +655,12 @@ func c02checkRT(c c02case) (res c02result) {
 	}
 	cls := c02strclass(strs)
 	where := c.Fmt + "/" + c.Parser
+	if c.Level == "file" {
+		where = fmt.Sprintf("file:%s>%s/%s%s w=%d b=%d", c.Writer, c.Reader, c.Parser, c.HdrOpt, c.Workers, c.Batch)
+	}
+	if c.Other != 0 {
+		where += fmt.Sprintf(" other-shift-option=%d", c.Other)
+	}
 
 	var t1 []byte
 	if bad, msg := c02try(func() { t1 = c02format(c, seqs) }); bad {
@@ -506,10 +670,26 @@ func c02checkRT(c c02case) (res c02result) {
 	}
 	res.state = string(t1)
 
-	// clamp of qualities > 93 in the written text (FASTQ, single record)
+	if c.Writer == "auto" {
+		want := map[string]byte{"fasta": '>', "fastq": '@'}[c02autoFormat(c.Recs)]
+		if len(t1) == 0 || t1[0] != want || c.Fmt != c02autoFormat(c.Recs) {
+			res.key = "write/auto-format"
+			res.desc = fmt.Sprintf("[%s] WriteSequence must write %s (first record has qualities: %v); text: %s", where, c02autoFormat(c.Recs), len(c.Recs[0].Qual) > 0, c02clip(t1))
+			return
+		}
+	}
+
+	// the written quality bytes (FASTQ, single record): min(q,93) + the OUTPUT quality shift
 	if c.Fmt == "fastq" && len(c.Recs) == 1 && c.Recs[0].Qual != nil {
 		lines := bytes.Split(bytes.TrimRight(t1, "\n"), []byte("\n"))
 		ql := lines[len(lines)-1]
+		for i, q := range c.Recs[0].Qual {
+			if q <= 93 && (i >= len(ql) || int(ql[i]) != q+c.Shift) {
+				res.key = "write/quality-byte-not-q+output-shift"
+				res.desc = fmt.Sprintf("[%s output shift=%d] quality %d at %d written as bytes %v, want byte %d", where, c.Shift, q, i, ql, q+c.Shift)
+				return
+			}
+		}
 		for i, q := range c.Recs[0].Qual {
 			if q > 93 && (i >= len(ql) || int(ql[i]) != 93+c.Shift) {
 				res.key = "write/quality>93-not-clamped"
@@ -545,7 +725,7 @@ func c02checkRT(c c02case) (res c02result) {
 		}
 		if c.Fmt == "fastq" && e.qual != nil {
 			if !g.HasQualities() || !bytes.Equal(g.Qualities(), e.qual) {
-				res.key = "reread/qualities"
+				res.key = "reread/qualities" + c02qualDiff(g.Qualities(), e.qual)
 				res.desc = fmt.Sprintf("%s: qualities %v read back as %v (has=%v)", pre, e.qual, []byte(g.Qualities()), g.HasQualities())
 				return
 			}
@@ -602,6 +782,38 @@ func c02checkRT(c c02case) (res c02result) {
 	return
 }
 
+// c02hasHighQualityByte: some quality of the case is written as a byte above 127 (shift 64, quality >= 64).
+func c02hasHighQualityByte(c c02case) bool {
+	for _, rc := range c.Recs {
+		for _, q := range rc.Qual {
+			if q > 93 {
+				q = 93
+			}
+			if q+c.Shift > 127 {
+				return true
+			}
+		}
+	}
+	return false
+}
+
+// c02qualDiff names how re-read qualities differ from the written ones.
+func c02qualDiff(got, want []byte) string {
+	if len(got) == 0 {
+		return ":none-read"
+	}
+	if len(got) != len(want) {
+		return ":length"
+	}
+	d := got[0] - want[0] // bytes: modulo 256, as the reader computes
+	for i := range got {
+		if got[i]-want[i] != d {
+			return ":values"
+		}
+	}
+	return fmt.Sprintf(":constant-offset(%+d)", int(int8(d))) // the reader did not subtract the shift the writer added
+}
+
 // c02diffPart tells which part of a record the first differing line of two written texts belongs to
 // (the string class of the case only matters for the title line).
 func c02diffPart(format string, t1, t2 []byte, cls string) string {
@@ -631,12 +843,42 @@ func c02typeOf(rc c02rec, key string) string {
 	return "?"
 }
 
+// c02hasBigInt: an integer typed value with |x| > 2^53 somewhere in v.
+func c02hasBigInt(v interface{}) bool {
+	switch x := v.(type) {
+	case int:
+		return x > 1<<53 || x < -(1<<53)
+	case int64:
+		return x > 1<<53 || x < -(1<<53)
+	case map[string]interface{}:
+		for _, e := range x {
+			if c02hasBigInt(e) {
+				return true
+			}
+		}
+	case map[string]int:
+		for _, e := range x {
+			if c02hasBigInt(e) {
+				return true
+			}
+		}
+	case []interface{}:
+		for _, e := range x {
+			if c02hasBigInt(e) {
+				return true
+			}
+		}
+	}
+	return false
+}
+
 // ---------------------------------------------------------------- E2: accepted title lines
 
 func c02checkTitle(c c02case) (res c02result) {
 	c02setShift(33)
 	cls := c02strclass([]string{c.Title})
 	c.Fmt = "fasta"
+	c.Shift = 33
 	text0 := []byte(">s " + c.Title + "\nacgt")
 	var r1 obiseq.BioSequenceSlice
 	if bad, msg := c02try(func() { r1 = c02parse(c, text0) }); bad {
@@ -645,6 +887,12 @@ func c02checkTitle(c c02case) (res c02result) {
 	}
 	if len(r1) != 1 {
 		res.state = fmt.Sprintf("rejected:%d-records", len(r1))
+		return
+	}
+	if r1[0].HasAnnotation() && c02hasBigInt(map[string]interface{}(r1[0].Annotations())) {
+		// the OBI-style parser (guessed selection, title not starting with '{') turns every integral number
+		// into an int: beyond 2^53 that is outside the quantifier (ints |x| <= 2^53), beyond 2^63 not a value
+		res.state = "outside:int-beyond-2^53"
 		return
 	}
 	res.accepted = true
@@ -781,10 +1029,18 @@ func c02annotSets() map[string][]c02kv {
 func TestVerifC02(t *testing.T) {
 	log.SetOutput(io.Discard)
 	log.AddHook(c02hook{})
-	log.StandardLogger().ExitFunc = func(int) { panic(c02exit{}) }
+	log.StandardLogger().ExitFunc = c02exitFunc
 	r := verifkit.New("C02")
 	defer r.Write()
 	defer c02setShift(33)
+	var err error
+	if c02tmpDir, err = os.MkdirTemp("", "c02-"); err != nil {
+		t.Fatal(err)
+	}
+	defer os.RemoveAll(c02tmpDir)
+	// every file-level reader allocates 1-4 MiB of buffers: with the default GC target (live heap x 2, a few
+	// MiB here) that is one collection per case; a 1 GiB... no: a larger target only trades memory for time
+	defer debug.SetGCPercent(debug.SetGCPercent(2000))
 
 	eval := func(c c02case) {
 		var res c02result
@@ -795,6 +1051,8 @@ func TestVerifC02(t *testing.T) {
 				if res.hasAnnot {
 					r.Count("title.accepted-with-json-annotations", 1)
 				}
+			} else if strings.HasPrefix(res.state, "outside:") {
+				r.Count("title.outside-the-quantifier(int-beyond-2^53)", 1)
 			} else {
 				r.Count("title.rejected-by-parser(fatal)", 1)
 			}
@@ -850,7 +1108,8 @@ func TestVerifC02(t *testing.T) {
 		defs = append(defs, "")
 		variants = append(variants, []c02kv{{"z", c02int(1)}}) // as definition
 		defs = append(defs, s)
-		if s != "" && !blank && s != "definition" {
+		_ = blank
+		if s != "" && s != "definition" { // keys may hold blanks: JSON strings, as the values
 			variants = append(variants, []c02kv{{s, c02int(1)}}) // top-level key
 			defs = append(defs, "")
 			variants = append(variants, []c02kv{{"m", c02val{T: "mapint", MI: map[string]int{s: 1}}}}) // nested key
@@ -950,9 +1209,17 @@ func TestVerifC02(t *testing.T) {
 									if f == "fasta" && (qk != "none" && qk != "ramp" || shift == 64) {
 										continue // FASTA carries no qualities: one representative is enough
 									}
-									for _, p := range parsers {
+									for pi, p := range parsers {
+										other := 0
+										if f == "fastq" && pi == 0 {
+											// json parser cases: the INPUT shift option differs from the output one while writing
+											other = 97 - shift
+										}
 										if !mine() {
 											continue
+										}
+										if other != 0 {
+											r.Count("rt.structural.fastq-written-with-input-shift-option-different", 1)
 										}
 										r.Count("rt.structural", 1)
 										if qk == "over" && f == "fastq" {
@@ -961,7 +1228,7 @@ func TestVerifC02(t *testing.T) {
 										if n > 60 {
 											r.Count("rt.structural.folded-sequences", 1)
 										}
-										eval(c02case{Kind: "rt", Fmt: f, Parser: p, Shift: shift,
+										eval(c02case{Kind: "rt", Fmt: f, Parser: p, Shift: shift, Other: other,
 											Recs: []c02rec{{Id: id, Seq: seq, Qual: c02quals(qk, n), Def: def, Ann: asets[an]}}})
 									}
 								}
@@ -1035,6 +1302,40 @@ func TestVerifC02(t *testing.T) {
 		return
 	}
 
+	// ---------- enumerations added by the audit (zz_verif_c02f_test.go)
+	x := &c02ctx{eval: eval, mine: mine, thorough: thorough,
+		count:   func(n string, k int64) { r.Count(n, k) },
+		bound:   func(n string, v interface{}) { r.Bound(n, v) },
+		expired: func() bool { return r.Expired() },
+		capf:    func(w string) { r.Cap(w) }}
+	t0 := time.Now()
+	lap := func(what string) { t.Logf("c02 section %-28s %6.1fs", what, time.Since(t0).Seconds()); t0 = time.Now() }
+	x.lap = lap
+	lap("E1.a-e (chunk level)")
+	x.sweepNumbers()
+	lap("numbers")
+	x.sweepTrees()
+	lap("value trees")
+	x.sweepIds(alpha, maxLen, extras)
+	lap("ids")
+	if r.Expired() {
+		return
+	}
+	x.sweepFileStructural(asets)
+	lap("file-level structural")
+	x.sweepFileSets(rpool)
+	lap("file-level record sets")
+	x.sweepFileStrings(alpha, maxLen, extras)
+	lap("file-level strings")
+	if r.Expired() {
+		return
+	}
+	x.sweepTokenTitles()
+	lap("token titles")
+	if r.Expired() {
+		return
+	}
+
 	// ---------- E2 title lines
 	talpha := `{}"\a:1, `
 	tlen, plen := 6, 6
@@ -1074,4 +1375,9 @@ func TestVerifC02(t *testing.T) {
 	r.RequireNonVacuous("rt.structural.clamp-cases")
 	r.RequireNonVacuous("rt.structural.folded-sequences")
 	r.RequireNonVacuous("title.accepted-with-json-annotations")
+	r.RequireNonVacuous("rt.file-level.fastq-with-in/out-shift-options-different")
+	r.RequireNonVacuous("rt.file-level.writer-chooses-format")
+	r.RequireNonVacuous("rt.file-level.reader-guesses-format")
+	r.RequireNonVacuous("rt.numbers.integral-float-beyond-int64")
+	r.RequireNonVacuous("title.token-cases")
 }
